@@ -430,3 +430,508 @@ Proof.
   apply steps_preserve_bag in Hsteps. rewrite init_bag, (pipeline_outcome_wired e c l E), (idle_bag _ _ _ Hi) in Hsteps.
   apply Permutation_sym. exact Hsteps.
 Qed.
+
+(* ---------- fragmented messages: the frame-level reader (ws_step / ws_run / ws_read) ---------- *)
+
+(* the generated constant: server/src/transport/ws.rs allocates the receive buffer inside the unfold closure *)
+Lemma recv_buffer_is_fresh : ws_recv_buffer_fresh = true.
+Proof. reflexivity. Qed.
+
+Lemma frag_blen_app a b : blen (a ++ b) = blen a + blen b.
+Proof. unfold blen. rewrite app_length, Nat2N.inj_add. reflexivity. Qed.
+
+Lemma ws_run_app l r fresh : forall a b st,
+  ws_run l r fresh st (a ++ b) =
+  match ws_run l r fresh st a with
+  | (e1, Some st') => let (e2, o) := ws_run l r fresh st' b in (e1 ++ e2, o)
+  | (e1, None) => (e1, None)
+  end.
+Proof.
+  induction a as [|f a IH]; intros b st; cbn [app ws_run].
+  - destruct (ws_run l r fresh st b); reflexivity.
+  - destruct (ws_step l r fresh st f) as [evs [st'|]]; [|reflexivity].
+    rewrite IH. destruct (ws_run l r fresh st' a) as [e1 [st''|]]; [|reflexivity].
+    destruct (ws_run l r fresh st'' b) as [e2 o]. rewrite app_assoc. reflexivity.
+Qed.
+
+Lemma ws_read_after l r fresh a e1 rest :
+  ws_run l r fresh ws_init a = (e1, Some ws_init) ->
+  ws_read l r fresh (a ++ rest) = e1 ++ ws_read l r fresh rest.
+Proof.
+  intro H. unfold ws_read. rewrite ws_run_app, H.
+  destruct (ws_run l r fresh ws_init rest) as [e2 o]. rewrite app_assoc. reflexivity.
+Qed.
+
+Lemma step_data_ok l r fresh infrag len msg start fin p :
+  len + blen p <= l -> start = negb infrag ->
+  ws_step l r fresh (RHeader infrag len msg) (WData start fin p) =
+  if fin then ([FDispatched (msg ++ p)], Some (RHeader false 0 [])) else ([], Some (RHeader true (len + blen p) (msg ++ p))).
+Proof.
+  intros H ->. cbn [ws_step]. destruct (N.ltb_spec l (len + blen p)); [lia|]. destruct infrag; reflexivity.
+Qed.
+
+Lemma cont_frames_cons p ps :
+  cont_frames (p :: ps) = WData false (match ps with [] => true | _ => false end) p :: cont_frames ps.
+Proof. reflexivity. Qed.
+
+Lemma cont_accept l r fresh : forall ps len msg,
+  ps <> [] -> len + blen (concat ps) <= l ->
+  ws_run l r fresh (RHeader true len msg) (cont_frames ps) = ([FDispatched (msg ++ concat ps)], Some ws_init).
+Proof.
+  induction ps as [|p ps IH]; intros len msg Hne Hle; [congruence|].
+  cbn [concat] in Hle. rewrite frag_blen_app in Hle. rewrite cont_frames_cons.
+  destruct ps as [|q ps'].
+  - cbn [cont_frames ws_run]. rewrite step_data_ok by (first [lia | reflexivity]).
+    cbn [concat app]. rewrite app_nil_r. reflexivity.
+  - cbn [ws_run]. rewrite step_data_ok by (first [lia | reflexivity]).
+    rewrite IH by (first [discriminate | lia]).
+    cbn [app concat]. rewrite <- app_assoc. reflexivity.
+Qed.
+
+Lemma msg_accept l r fresh fr :
+  fr <> [] -> blen (concat fr) <= l ->
+  ws_run l r fresh ws_init (msg_frames fr) = ([FDispatched (concat fr)], Some ws_init).
+Proof.
+  destruct fr as [|p ps]; [congruence|]. intros _ Hle. cbn [concat] in Hle. rewrite frag_blen_app in Hle.
+  unfold ws_init at 1. unfold msg_frames. destruct ps as [|q ps'].
+  - cbn [cont_frames ws_run]. rewrite step_data_ok by (first [lia | reflexivity]).
+    cbn [concat app]. rewrite app_nil_r. reflexivity.
+  - cbn [ws_run]. rewrite step_data_ok by (first [lia | reflexivity]).
+    rewrite cont_accept by (first [discriminate | lia]). reflexivity.
+Qed.
+
+(* what follows the frame that takes the accumulated length above the limit *)
+Definition after_cross (l r : N) (fresh : bool) (acc : N) (msg : bytes) (tail : list wframe) : list fev * option rstate :=
+  if acc =? 0 then let (e, o) := ws_run l r fresh (RHeader false 0 (kept fresh msg)) tail in (FTooBig r :: e, o)
+  else ws_run l r fresh (RDiscard acc msg) tail.
+
+Lemma step_data_cross l r fresh infrag len msg start fin p tail :
+  l < len + blen p ->
+  ws_run l r fresh (RHeader infrag len msg) (WData start fin p :: tail) = after_cross l r fresh len msg tail.
+Proof.
+  intro H. cbn [ws_run ws_step]. destruct (N.ltb_spec l (len + blen p)); [|lia].
+  unfold after_cross. destruct (len =? 0); [|cbn [app]].
+  - destruct (ws_run l r fresh (RHeader false 0 (kept fresh msg)) tail). reflexivity.
+  - destruct (ws_run l r fresh (RDiscard len msg) tail). reflexivity.
+Qed.
+
+Lemma cont_cross l r fresh : forall ps len msg acc post tail,
+  split_cross l len ps = Some (acc, post) ->
+  exists msg', ws_run l r fresh (RHeader true len msg) (cont_frames ps ++ tail)
+               = after_cross l r fresh acc msg' (cont_frames post ++ tail).
+Proof.
+  induction ps as [|p ps IH]; intros len msg acc post tail H; [discriminate|].
+  cbn [split_cross] in H.
+  destruct (N.ltb_spec l (len + blen p)) as [Hlt|Hge].
+  - inversion H; subst. exists msg. rewrite cont_frames_cons. cbn [app]. apply step_data_cross. exact Hlt.
+  - destruct ps as [|q ps']; [discriminate H|].
+    destruct (IH (len + blen p) (msg ++ p) acc post tail H) as [msg' Hm]. exists msg'.
+    rewrite cont_frames_cons. cbn [app ws_run]. rewrite step_data_ok by (first [lia | reflexivity]).
+    rewrite Hm.
+    destruct (after_cross l r fresh acc msg' (cont_frames post ++ tail)). reflexivity.
+Qed.
+
+Lemma msg_cross l r fresh fr acc post tail :
+  split_cross l 0 fr = Some (acc, post) ->
+  exists msg', ws_run l r fresh ws_init (msg_frames fr ++ tail) = after_cross l r fresh acc msg' (cont_frames post ++ tail).
+Proof.
+  destruct fr as [|p ps]; [discriminate|]. intro H. cbn [split_cross] in H. unfold ws_init.
+  destruct (N.ltb_spec l (0 + blen p)) as [Hlt|Hge].
+  - inversion H; subst. exists []. unfold msg_frames. cbn [app]. apply step_data_cross. exact Hlt.
+  - destruct ps as [|q ps']; [discriminate H|].
+    destruct (cont_cross l r fresh (q :: ps') (0 + blen p) ([] ++ p) acc post tail H) as [msg' Hm]. exists msg'.
+    unfold msg_frames. cbn [app ws_run]. rewrite step_data_ok by (first [lia | reflexivity]).
+    rewrite Hm.
+    destruct (after_cross l r fresh acc msg' (cont_frames post ++ tail)). reflexivity.
+Qed.
+
+Lemma header_len_pos n : 6 <= client_header_len n.
+Proof. unfold client_header_len. destruct (n <? 126); [lia|]. destruct (n <=? 65535); lia. Qed.
+
+Lemma wire_len_zero f : wire_len f = 0 -> f = WRaw 0.
+Proof.
+  destruct f as [s fin p | p | p | n]; cbn [wire_len]; intro H;
+    try (pose proof (header_len_pos (blen p)); lia). subst. reflexivity.
+Qed.
+
+Lemma wire_total_app a b : wire_total (a ++ b) = wire_total a + wire_total b.
+Proof. unfold wire_total. induction a as [|f a IH]; cbn [app fold_right]; [lia | rewrite IH; lia]. Qed.
+
+Lemma zero_width_skip l r fresh : forall sw infrag len msg rest,
+  wire_total sw = 0 ->
+  ws_run l r fresh (RHeader infrag len msg) (sw ++ rest) = ws_run l r fresh (RHeader infrag len msg) rest.
+Proof.
+  induction sw as [|f sw IH]; intros infrag len msg rest H; [reflexivity|].
+  cbn [wire_total fold_right] in H. fold (wire_total sw) in H.
+  assert (Hf : wire_len f = 0) by lia. apply wire_len_zero in Hf. subst f.
+  cbn [app ws_run ws_step]. rewrite N.eqb_refl. rewrite IH by (cbn [wire_len] in H; lia).
+  destruct (ws_run l r fresh (RHeader infrag len msg) rest). reflexivity.
+Qed.
+
+(* exactly n further bytes follow, whatever they are: the rejection goes out and the reader is where it was at start *)
+Lemma discard_exact l r : forall sw n msg rest,
+  wire_total sw = n -> 0 < n ->
+  ws_run l r true (RDiscard n msg) (sw ++ rest) = let (e, o) := ws_run l r true ws_init rest in (FTooBig r :: e, o).
+Proof.
+  induction sw as [|f sw IH]; intros n msg rest Hw Hn; cbn [wire_total fold_right] in Hw; [lia|].
+  fold (wire_total sw) in Hw. cbn [app ws_run ws_step].
+  destruct (N.ltb_spec (wire_len f) n) as [Hlt|Hge].
+  - rewrite IH by lia. destruct (ws_run l r true ws_init rest). reflexivity.
+  - destruct (N.eqb_spec (wire_len f) n) as [He|Hne]; [|lia].
+    cbn [kept]. fold ws_init. unfold ws_init at 1. rewrite zero_width_skip by lia. fold ws_init.
+    destruct (ws_run l r true ws_init rest). reflexivity.
+Qed.
+
+Lemma cont_frames_wire_zero post : wire_total (cont_frames post) = 0 -> post = [].
+Proof.
+  destruct post as [|p ps]; [reflexivity|]. cbn [cont_frames wire_total fold_right wire_len]. intro H.
+  pose proof (header_len_pos (blen p)). lia.
+Qed.
+
+(* a rejected fragmented message after which exactly the over-discarded bytes follow: one rejection, then everything
+   is read as at the start *)
+Lemma frag_reject_in_step l r fr acc post filler rest :
+  split_cross l 0 fr = Some (acc, post) -> wire_total (cont_frames post) + filler = acc ->
+  ws_read l r true (msg_frames fr ++ WRaw filler :: rest) = FTooBig r :: ws_read l r true rest.
+Proof.
+  intros Hs Hw. destruct (msg_cross l r true fr acc post (WRaw filler :: rest) Hs) as [msg' Hm].
+  unfold ws_read. rewrite Hm. unfold after_cross. destruct (N.eqb_spec acc 0) as [Hz|Hnz].
+  - subst acc. assert (Hf : filler = 0) by lia. assert (Hp : wire_total (cont_frames post) = 0) by lia.
+    apply cont_frames_wire_zero in Hp. subst post filler.
+    cbn [cont_frames app kept ws_run ws_step]. rewrite N.eqb_refl. fold ws_init.
+    destruct (ws_run l r true ws_init rest) as [e o]. reflexivity.
+  - replace (cont_frames post ++ WRaw filler :: rest) with ((cont_frames post ++ [WRaw filler]) ++ rest)
+      by (rewrite <- app_assoc; reflexivity).
+    rewrite discard_exact.
+    + destruct (ws_run l r true ws_init rest) as [e o]. reflexivity.
+    + rewrite wire_total_app. cbn [wire_total fold_right wire_len]. lia.
+    + lia.
+Qed.
+
+(* one frame *)
+Lemma single_frame l r fresh whole rest :
+  ws_read l r fresh (WData true true whole :: rest)
+  = (if blen whole <=? l then FDispatched whole else FTooBig r) :: ws_read l r fresh rest.
+Proof.
+  unfold ws_read, ws_init. cbn [ws_run ws_step].
+  destruct (N.ltb_spec l (0 + blen whole)) as [Hlt|Hge]; destruct (N.leb_spec (blen whole) l) as [Hle|Hgt]; try lia.
+  - rewrite N.eqb_refl. replace (kept fresh []) with (@nil byte) by (destruct fresh; reflexivity).
+    destruct (ws_run l r fresh (RHeader false 0 []) rest). reflexivity.
+  - cbn [Bool.eqb app]. destruct (ws_run l r fresh (RHeader false 0 []) rest). reflexivity.
+Qed.
+
+Lemma split_cross_exists l : forall fr acc,
+  acc <= l -> l < acc + blen (concat fr) -> exists acc' post, split_cross l acc fr = Some (acc', post) /\ acc' <= l.
+Proof.
+  induction fr as [|f fr IH]; intros acc Ha Hlt; cbn [concat] in Hlt.
+  - change (blen []) with 0 in Hlt. lia.
+  - rewrite frag_blen_app in Hlt. cbn [split_cross]. destruct (N.ltb_spec l (acc + blen f)) as [H|H].
+    + exists acc, fr. split; [reflexivity | exact Ha].
+    + apply IH; lia.
+Qed.
+
+Lemma split_cross_none l : forall fr acc, acc + blen (concat fr) <= l -> split_cross l acc fr = None.
+Proof.
+  induction fr as [|f fr IH]; intros acc H; [reflexivity|].
+  cbn [concat] in H. rewrite frag_blen_app in H. cbn [split_cross].
+  destruct (N.ltb_spec l (acc + blen f)); [lia|]. apply IH. lia.
+Qed.
+
+Lemma read_skip_empty_raw l r fresh rest : ws_read l r fresh (WRaw 0 :: rest) = ws_read l r fresh rest.
+Proof.
+  unfold ws_read, ws_init. cbn [ws_run ws_step]. rewrite N.eqb_refl.
+  destruct (ws_run l r fresh (RHeader false 0 []) rest). reflexivity.
+Qed.
+
+Lemma frag_total_decides :
+  forall (e : ep) (c : cfg) (l : N) (fr : list bytes) (filler : N) (rest : list wframe),
+    ws_limit_of e c = Some l -> fr <> [] -> in_step (max_request c) fr filler = true ->
+    let rd := ws_read l (ws_reported_limit c) ws_recv_buffer_fresh in
+    rd (msg_frames fr ++ WRaw filler :: rest) = rd (msg_frames [concat fr] ++ rest) /\
+    rd (msg_frames [concat fr] ++ rest)
+    = (if blen (concat fr) <=? max_request c then FDispatched (concat fr) else FTooBig (max_request c)) :: rd rest.
+Proof.
+  intros e c l fr filler rest E Hne Hin. apply ws_wiring in E. subst l.
+  rewrite recv_buffer_is_fresh. generalize (ws_reported_wiring c). generalize (ws_reported_limit c). intros r0 ->.
+  cbv zeta. cbn [msg_frames cont_frames app]. rewrite single_frame. split; [|reflexivity].
+  unfold in_step in Hin. destruct (N.leb_spec (blen (concat fr)) (max_request c)) as [Hle|Hgt].
+  - rewrite split_cross_none in Hin by lia. apply N.eqb_eq in Hin. subst filler.
+    rewrite (ws_read_after _ _ _ _ _ (WRaw 0 :: rest) (msg_accept _ _ _ fr Hne Hle)).
+    rewrite read_skip_empty_raw. reflexivity.
+  - destruct (split_cross_exists (max_request c) fr 0) as (acc & post & Hs & _); [lia | lia |].
+    rewrite Hs in Hin. apply N.eqb_eq in Hin.
+    apply (frag_reject_in_step _ _ fr acc post filler rest Hs Hin).
+Qed.
+
+(* with a buffer per receive() call nothing longer than the limit is ever handed to handle_rpc_call, whatever the frames are *)
+Definition st_ok (st : rstate) : Prop :=
+  match st with RHeader _ len msg => blen msg = len | RDiscard _ _ => True end.
+
+Ltac in_evs H :=
+  repeat match type of H with
+  | In _ [] => destruct H
+  | In _ (_ :: _) => destruct H as [H|H]; [try discriminate H|]
+  end.
+
+Lemma step_ok l r st f evs o :
+  st_ok st -> ws_step l r true st f = (evs, o) ->
+  (forall t, In (FDispatched t) evs -> blen t <= l) /\ (forall st', o = Some st' -> st_ok st').
+Proof.
+  intros Hok H.
+  assert (Hgoal : forall evs' o', (evs', o') = (evs, o) ->
+     (forall t, In (FDispatched t) evs' -> blen t <= l) -> (forall st', o' = Some st' -> st_ok st') ->
+     (forall t, In (FDispatched t) evs -> blen t <= l) /\ (forall st', o = Some st' -> st_ok st')).
+  { intros evs' o' Heq. inversion Heq; subst. auto. }
+  destruct st as [infrag len msg | n msg]; cbn [st_ok] in Hok.
+  - destruct f as [start fin p | p | p | n]; cbn [ws_step] in H.
+    + destruct (N.ltb_spec l (len + blen p)) as [Hlt|Hge].
+      * destruct (len =? 0);
+          (eapply Hgoal; [exact H | intros t Hin; in_evs Hin | intros st' Hs; inversion Hs; subst; cbn [st_ok kept]; first [reflexivity | exact I]]).
+      * destruct (Bool.eqb start infrag); [eapply Hgoal; [exact H | intros t Hin; in_evs Hin | intros st' Hs; discriminate Hs]|].
+        destruct fin; (eapply Hgoal; [exact H | intros t Hin; in_evs Hin | intros st' Hs; inversion Hs; subst; cbn [st_ok]]).
+        -- inversion Hin; subst. rewrite frag_blen_app. lia.
+        -- reflexivity.
+        -- rewrite frag_blen_app. reflexivity.
+    + eapply Hgoal; [exact H | intros t Hin; in_evs Hin | intros st' Hs; inversion Hs; subst; cbn [st_ok]; first [reflexivity | assumption]].
+    + eapply Hgoal; [exact H | intros t Hin; in_evs Hin | intros st' Hs; inversion Hs; subst; reflexivity].
+    + destruct (n =? 0); (eapply Hgoal; [exact H | intros t Hin; in_evs Hin | intros st' Hs; inversion Hs; subst; cbn [st_ok]; first [reflexivity | assumption]]).
+  - cbn [ws_step] in H. destruct (wire_len f <? n); [|destruct (wire_len f =? n)];
+      (eapply Hgoal; [exact H | intros t Hin; in_evs Hin | intros st' Hs; inversion Hs; subst; cbn [st_ok kept]; first [reflexivity | exact I]]).
+Qed.
+
+Lemma run_ok l r : forall fs st evs o,
+  st_ok st -> ws_run l r true st fs = (evs, o) -> forall t, In (FDispatched t) evs -> blen t <= l.
+Proof.
+  induction fs as [|f fs IH]; intros st evs o Hok H t Hin; cbn [ws_run] in H.
+  - inversion H; subst. destruct Hin.
+  - destruct (ws_step l r true st f) as [e1 o1] eqn:Es. destruct (step_ok l r st f e1 o1 Hok Es) as [Hd Hst].
+    destruct o1 as [st'|].
+    + destruct (ws_run l r true st' fs) as [e2 o2] eqn:Er. inversion H; subst.
+      apply in_app_or in Hin. destruct Hin as [Hin|Hin]; [apply Hd; exact Hin|].
+      eapply IH; [apply Hst; reflexivity | exact Er | exact Hin].
+    + inversion H; subst. apply Hd. exact Hin.
+Qed.
+
+Lemma frag_never_oversize :
+  forall (e : ep) (c : cfg) (l : N) (fs : list wframe) (t : bytes),
+    ws_limit_of e c = Some l ->
+    In (FDispatched t) (ws_read l (ws_reported_limit c) ws_recv_buffer_fresh fs) -> blen t <= max_request c.
+Proof.
+  intros e c l fs t E Hin. apply ws_wiring in E. subst l. rewrite recv_buffer_is_fresh in Hin.
+  revert Hin. generalize (ws_reported_limit c). intros r0 Hin.
+  unfold ws_read in Hin. destruct (ws_run (max_request c) r0 true ws_init fs) as [evs o] eqn:Er.
+  apply in_app_or in Hin. destruct Hin as [Hin|Hin].
+  - eapply run_ok; [|exact Er | exact Hin]. reflexivity.
+  - destruct o as [[i n m | n m]|]; cbn in Hin; try contradiction. destruct Hin as [Hin|[]]. discriminate.
+Qed.
+
+(* the frame on which a rejection goes out leaves the reader exactly where a new connection starts *)
+Lemma step_toobig_resets l r st f evs st' x :
+  ws_step l r true st f = (evs, Some st') -> In (FTooBig x) evs -> st' = ws_init /\ evs = [FTooBig r].
+Proof.
+  intros H Hin. destruct st as [infrag len msg | n msg].
+  - destruct f as [start fin p | p | p | n]; cbn [ws_step] in H.
+    + destruct (l <? len + blen p).
+      * destruct (len =? 0); inversion H; subst; [split; reflexivity | destruct Hin].
+      * destruct (Bool.eqb start infrag); [discriminate|]. destruct fin; inversion H; subst.
+        -- destruct Hin as [Hin|[]]. discriminate.
+        -- destruct Hin.
+    + inversion H; subst. destruct Hin as [Hin|[]]. discriminate.
+    + inversion H; subst. destruct Hin.
+    + destruct (n =? 0); inversion H; subst. destruct Hin.
+  - cbn [ws_step] in H. destruct (wire_len f <? n); [inversion H; subst; destruct Hin|].
+    destruct (wire_len f =? n); inversion H; subst. split; reflexivity.
+Qed.
+
+Lemma frag_reject_resets :
+  forall (e : ep) (c : cfg) (l : N) (fs0 : list wframe) (f : wframe) (rest : list wframe) (evs0 evs1 : list fev) (st0 st : rstate) (x : N),
+    ws_limit_of e c = Some l ->
+    ws_run l (ws_reported_limit c) ws_recv_buffer_fresh ws_init fs0 = (evs0, Some st0) ->
+    ws_step l (ws_reported_limit c) ws_recv_buffer_fresh st0 f = (evs1, Some st) ->
+    In (FTooBig x) evs1 ->
+    ws_read l (ws_reported_limit c) ws_recv_buffer_fresh (fs0 ++ f :: rest)
+    = evs0 ++ FTooBig (max_request c) :: ws_read l (ws_reported_limit c) ws_recv_buffer_fresh rest.
+Proof.
+  intros e c l fs0 f rest evs0 evs1 st0 st x E. apply ws_wiring in E. subst l.
+  rewrite recv_buffer_is_fresh. generalize (ws_reported_wiring c). generalize (ws_reported_limit c). intros r0 ->.
+  intros H0 H1 Hin.
+  destruct (step_toobig_resets _ _ _ _ _ _ _ H1 Hin) as [-> ->].
+  unfold ws_read. rewrite ws_run_app, H0. cbn [ws_run]. rewrite H1.
+  destruct (ws_run (max_request c) (max_request c) true ws_init rest) as [e2 o].
+  cbn [app]. rewrite <- app_assoc. reflexivity.
+Qed.
+
+(* ---------- no carry-over, for every frame stream ---------- *)
+
+Lemma block_scan_snoc_data : forall cur i m fin p,
+  block_scan i cur = Some (m, false) -> block_scan i (cur ++ [WData false fin p]) = Some (m ++ p, fin).
+Proof.
+  induction cur as [|f cur IH]; intros i m fin p H.
+  - destruct i; cbn in H; [|discriminate]. inversion H; subst. cbn. destruct fin; [reflexivity|]. rewrite app_nil_r. reflexivity.
+  - destruct f as [s fn q | q | q | n]; cbn [block_scan app] in *.
+    + destruct (Bool.eqb s i); [discriminate|]. destruct fn.
+      * destruct cur; inversion H.
+      * destruct (block_scan true cur) as [[t b]|] eqn:Ec; [|discriminate]. inversion H; subst.
+        rewrite (IH true t fin p Ec). rewrite app_assoc. reflexivity.
+    + destruct i; [|discriminate]. apply IH. exact H.
+    + discriminate.
+    + destruct (i && (n =? 0)); [|discriminate]. apply IH. exact H.
+Qed.
+
+Lemma block_scan_snoc_skip : forall cur i m f,
+  (exists q, f = WPing q) \/ f = WRaw 0 ->
+  block_scan i cur = Some (m, false) -> block_scan i (cur ++ [f]) = Some (m, false).
+Proof.
+  induction cur as [|g cur IH]; intros i m f Hf H.
+  - destruct i; cbn in H; [|discriminate]. inversion H; subst. destruct Hf as [[q ->] | ->]; reflexivity.
+  - destruct g as [s fn q | q | q | n]; cbn [block_scan app] in *.
+    + destruct (Bool.eqb s i); [discriminate|]. destruct fn.
+      * destruct cur; inversion H.
+      * destruct (block_scan true cur) as [[t b]|] eqn:Ec; [|discriminate]. inversion H; subst.
+        rewrite (IH true t f Hf Ec). reflexivity.
+    + destruct i; [|discriminate]. apply IH; assumption.
+    + discriminate.
+    + destruct (i && (n =? 0)); [|discriminate]. apply IH; assumption.
+Qed.
+
+(* what the reader state says about the frames `cur` read since it last was in the state of a new connection *)
+Definition frag_shape (st : rstate) (cur : list wframe) : Prop :=
+  match st with
+  | RHeader false len msg => cur = [] /\ len = 0 /\ msg = []
+  | RHeader true _ msg => block_scan false cur = Some (msg, false)
+  | RDiscard _ _ => True
+  end.
+
+Lemma run_snoc l r fresh fs f e0 st evs o :
+  ws_run l r fresh ws_init fs = (e0, Some st) -> ws_step l r fresh st f = (evs, o) ->
+  ws_run l r fresh ws_init (fs ++ [f]) = (e0 ++ evs, o).
+Proof.
+  intros H1 H2. rewrite ws_run_app, H1. cbn [ws_run]. rewrite H2. destruct o; [rewrite app_nil_r|]; reflexivity.
+Qed.
+
+Ltac run_inv Hrun Hin Er :=
+  cbv beta iota in Hrun;
+  try match type of Hrun with context [ws_run ?a ?b ?c ?st ?fs] => destruct (ws_run a b c st fs) as [ev2 o2] eqn:Er end;
+  inversion Hrun; subst; clear Hrun; cbn [app] in Hin.
+
+Lemma run_blocks l r : forall fs done cur st e0 e1 evs o,
+  ws_run l r true ws_init (done ++ cur) = (e0, Some st) ->
+  ws_run l r true ws_init done = (e1, Some ws_init) ->
+  frag_shape st cur ->
+  ws_run l r true st fs = (evs, o) ->
+  forall t, In (FDispatched t) evs ->
+  exists pre block post e, done ++ cur ++ fs = pre ++ block ++ post /\
+    ws_run l r true ws_init pre = (e, Some ws_init) /\ block_text block = Some t.
+Proof.
+  induction fs as [|f fs IH]; intros done cur st e0 e1 evs o H0 H1 Hsh Hrun t Hin; cbn [ws_run] in Hrun.
+  - inversion Hrun; subst. destruct Hin.
+  - destruct (ws_step l r true st f) as [ev1 o1] eqn:Es.
+    pose proof (run_snoc _ _ _ _ _ _ _ _ _ H0 Es) as Hsn.
+    (* the continuation, once the next state and the next (done, cur) are known *)
+    assert (Hnext : forall done' cur' st' e1' evs',
+               o1 = Some st' -> done' ++ cur' = (done ++ cur) ++ [f] ->
+               ws_run l r true ws_init done' = (e1', Some ws_init) -> frag_shape st' cur' ->
+               ws_run l r true st' fs = (evs', o) -> In (FDispatched t) evs' ->
+               exists pre block post e, done ++ cur ++ f :: fs = pre ++ block ++ post /\
+                 ws_run l r true ws_init pre = (e, Some ws_init) /\ block_text block = Some t).
+    { intros done' cur' st' e1' evs' Ho Hdc Hd' Hsh' Hrun' Hin'. subst o1. rewrite <- Hdc in Hsn.
+      destruct (IH done' cur' st' _ e1' evs' o Hsn Hd' Hsh' Hrun' t Hin') as (pre & block & post & e & Heq & Hpre & Hb).
+      exists pre, block, post, e. split; [|split; assumption].
+      rewrite <- Heq. rewrite (app_assoc done' cur' fs), Hdc. rewrite <- !app_assoc. reflexivity. }
+    (* the frame on which the run comes back to the state of a new connection *)
+    assert (Hreset : forall evs', o1 = Some ws_init -> ws_run l r true ws_init fs = (evs', o) -> In (FDispatched t) evs' ->
+               exists pre block post e, done ++ cur ++ f :: fs = pre ++ block ++ post /\
+                 ws_run l r true ws_init pre = (e, Some ws_init) /\ block_text block = Some t).
+    { intros evs' Ho Hrun' Hin'. apply (Hnext ((done ++ cur) ++ [f]) [] ws_init (e0 ++ ev1) evs' Ho).
+      - rewrite app_nil_r. reflexivity.
+      - rewrite Hsn, Ho. reflexivity.
+      - cbn. auto.
+      - exact Hrun'.
+      - exact Hin'. }
+    destruct st as [infrag len msg | n msg].
+    + destruct infrag.
+      * (* inside a fragmented message *)
+        cbn [frag_shape] in Hsh. destruct f as [start fin p | p | p | n]; cbn [ws_step] in Es.
+        -- destruct (l <? len + blen p).
+           ++ destruct (len =? 0); inversion Es; subst.
+              ** run_inv Hrun Hin Er.
+                 destruct Hin as [Hin|Hin]; [discriminate|]. eapply Hreset; [reflexivity | exact Er | exact Hin].
+              ** run_inv Hrun Hin Er.
+                 eapply (Hnext done (cur ++ [WData start fin p])); [reflexivity | rewrite app_assoc; reflexivity | exact H1 | exact I | exact Er | exact Hin].
+           ++ destruct start; cbn [Bool.eqb] in Es; [inversion Es; subst; run_inv Hrun Hin Er; destruct Hin as [Hin|[]]; discriminate|].
+              destruct fin; inversion Es; subst.
+              ** run_inv Hrun Hin Er.
+                 destruct Hin as [Hin|Hin].
+                 --- assert (Ht : t = msg ++ p) by (inversion Hin; subst; reflexivity). subst t.
+                     exists done, (cur ++ [WData false true p]), fs, e1. split; [|split].
+                     +++ rewrite <- !app_assoc. reflexivity.
+                     +++ exact H1.
+                     +++ unfold block_text. rewrite (block_scan_snoc_data cur false msg true p Hsh). reflexivity.
+                 --- eapply Hreset; [reflexivity | exact Er | exact Hin].
+              ** run_inv Hrun Hin Er.
+                 eapply (Hnext done (cur ++ [WData false false p])); [reflexivity | rewrite app_assoc; reflexivity | exact H1 | | exact Er | exact Hin].
+                 cbn [frag_shape]. apply block_scan_snoc_data. exact Hsh.
+        -- inversion Es; subst. run_inv Hrun Hin Er.
+           destruct Hin as [Hin|Hin]; [discriminate|].
+           eapply (Hnext done (cur ++ [WPing p])); [reflexivity | rewrite app_assoc; reflexivity | exact H1 | | exact Er | exact Hin].
+           cbn [frag_shape]. apply block_scan_snoc_skip; [left; eexists; reflexivity | exact Hsh].
+        -- inversion Es; subst. run_inv Hrun Hin Er.
+           eapply Hreset; [reflexivity | exact Er | exact Hin].
+        -- destruct (N.eqb_spec n 0) as [Hz|Hnz]; inversion Es; subst; [|run_inv Hrun Hin Er; destruct Hin as [Hin|[]]; discriminate].
+           run_inv Hrun Hin Er.
+           eapply (Hnext done (cur ++ [WRaw 0])); [reflexivity | rewrite app_assoc; reflexivity | exact H1 | | exact Er | exact Hin].
+           cbn [frag_shape]. apply block_scan_snoc_skip; [right; reflexivity | exact Hsh].
+      * (* at a message boundary: the state of a new connection *)
+        cbn [frag_shape] in Hsh. destruct Hsh as (-> & -> & ->). rewrite app_nil_r in *.
+        destruct f as [start fin p | p | p | n]; cbn [ws_step] in Es.
+        -- destruct (l <? 0 + blen p).
+           ++ rewrite N.eqb_refl in Es. inversion Es; subst.
+              run_inv Hrun Hin Er.
+              destruct Hin as [Hin|Hin]; [discriminate|]. eapply Hreset; [reflexivity | exact Er | exact Hin].
+           ++ destruct start; cbn [Bool.eqb] in Es; [|inversion Es; subst; run_inv Hrun Hin Er; destruct Hin as [Hin|[]]; discriminate].
+              destruct fin; inversion Es; subst.
+              ** run_inv Hrun Hin Er.
+                 destruct Hin as [Hin|Hin].
+                 --- assert (Ht : t = p) by (inversion Hin; subst; reflexivity). subst t.
+                     exists done, [WData true true p], fs, e1. split; [|split].
+                     +++ reflexivity.
+                     +++ exact H1.
+                     +++ reflexivity.
+                 --- eapply Hreset; [reflexivity | exact Er | exact Hin].
+              ** run_inv Hrun Hin Er.
+                 eapply (Hnext done [WData true false p]); [reflexivity | reflexivity | exact H1 | | exact Er | exact Hin].
+                 cbn. rewrite app_nil_r. reflexivity.
+        -- inversion Es; subst. run_inv Hrun Hin Er.
+           destruct Hin as [Hin|Hin]; [discriminate|]. eapply Hreset; [reflexivity | exact Er | exact Hin].
+        -- inversion Es; subst. run_inv Hrun Hin Er.
+           eapply Hreset; [reflexivity | exact Er | exact Hin].
+        -- destruct (N.eqb_spec n 0) as [Hz|Hnz]; inversion Es; subst; [|run_inv Hrun Hin Er; destruct Hin as [Hin|[]]; discriminate].
+           run_inv Hrun Hin Er.
+           eapply Hreset; [reflexivity | exact Er | exact Hin].
+    + (* soketto is discarding *)
+      cbn [ws_step] in Es. destruct (wire_len f <? n).
+      * inversion Es; subst. run_inv Hrun Hin Er.
+        eapply (Hnext done (cur ++ [f])); [reflexivity | rewrite app_assoc; reflexivity | exact H1 | exact I | exact Er | exact Hin].
+      * destruct (wire_len f =? n); inversion Es; subst.
+        -- run_inv Hrun Hin Er.
+           destruct Hin as [Hin|Hin]; [discriminate|]. eapply Hreset; [reflexivity | exact Er | exact Hin].
+        -- run_inv Hrun Hin Er. destruct Hin as [Hin|[Hin|[]]]; discriminate.
+Qed.
+
+Lemma frag_no_carry_over :
+  forall (e : ep) (c : cfg) (l : N) (fs : list wframe) (t : bytes),
+    ws_limit_of e c = Some l ->
+    In (FDispatched t) (ws_read l (ws_reported_limit c) ws_recv_buffer_fresh fs) ->
+    blen t <= max_request c /\
+    exists (pre block post : list wframe) (evs : list fev),
+      fs = pre ++ block ++ post /\
+      ws_run l (ws_reported_limit c) ws_recv_buffer_fresh ws_init pre = (evs, Some ws_init) /\
+      block_text block = Some t.
+Proof.
+  intros e c l fs t E Hin. split; [exact (frag_never_oversize e c l fs t E Hin)|].
+  rewrite recv_buffer_is_fresh in *. revert Hin. generalize (ws_reported_limit c). intros r0 Hin.
+  unfold ws_read in Hin. destruct (ws_run l r0 true ws_init fs) as [evs o] eqn:Er.
+  apply in_app_or in Hin. destruct Hin as [Hin|Hin].
+  - apply (run_blocks l r0 fs [] [] ws_init [] [] evs o); cbn; auto.
+  - destruct o as [[i n m | n m]|]; cbn in Hin; try contradiction. destruct Hin as [Hin|[]]. discriminate.
+Qed.
